@@ -455,7 +455,11 @@ def gen_block_raw(rng):
         else:
             parts.append(rng.choice(['"', '""', "\\", '\\"', "\\n", "\\u0041"]))
     raw = "".join(parts)
-    raw = raw.replace('"""', '""')       # an unescaped triple quote would end the string
+    # an unescaped triple quote would end the string (escaped ones are kept, protected as NUL meanwhile)
+    tmp = raw.replace('\\"""', "\x00")
+    while '"""' in tmp:
+        tmp = tmp.replace('"""', '""')
+    raw = tmp.replace("\x00", '\\"""')
     while raw.endswith('"') or raw.endswith("\\"):
         raw = raw[:-1]                   # would fuse with the closing quotes
     return raw
@@ -632,6 +636,10 @@ def run(ctx):
         for (i, j), a in zip(blocks, ans):
             t = seqs[i][j]
             seqs[i][j] = (t[0], t[1], None if a["block"] is None else from_cps(a["block"]))
+        invalid = {i for (i, j) in blocks if seqs[i][j][2] is None}
+        if invalid:
+            ctx.stat("generator:invalid-block-lexeme-dropped", len(invalid))
+            seqs = [ts for i, ts in enumerate(seqs) if i not in invalid]
     rendered = []
     for toks in seqs:
         a, b = render(rng, toks), render(rng, toks)
@@ -664,6 +672,7 @@ def run(ctx):
         if rng.random() < 0.5:
             lexs.append(mutate(rng, t[1]))
     oracle_single_lexemes(ctx, lexs, "generated")
+    oracle_number_lookahead(ctx, rng)
 
     # --- mutants and prefixes -----------------------------------------------------------------
     base = [a for _, a, _ in rendered[: ctx.n(40, 300)]]
@@ -715,6 +724,24 @@ def run(ctx):
         oracle_single_lexemes(ctx, chunk, "exhaustive")
         done += len(chunk)
     ctx.extra["exhaustive_strings"] = done
+
+
+def oracle_number_lookahead(ctx, rng):
+    """the look-ahead restriction (pinned by test_useful_number_errors): a number lexeme directly followed by a
+    NameStart character is rejected — it is neither a longer number nor number + name."""
+    for _ in range(ctx.n(200, 2000)):
+        n = gen_int(rng) if rng.random() < 0.5 else gen_float(rng)
+        c = rng.choice([x for x in NAME_START if x not in "eE"])   # e/E start an exponent: decided by the number grammar (O2)
+        text = n + c + rng.choice(["", "1", " ", "b"])
+        ctx.count()
+        r = real_lex(text)
+        ctx.stat("lookahead:%s" % r[0])
+        if r[0] == "ok":
+            ctx.fail("number-followed-by-name-start-accepted:%s" % classes(n[-1:] + c),
+                     "a number directly followed by a name start character is accepted",
+                     {"part": PART, "kind": "lookahead", "text": cps(text)})
+        elif r[0] == "internal":
+            ctx.fail("internal:%s:%s" % (r[1], classes(text)), "lexer raises %s" % r[1], {"part": PART, "kind": "lex", "text": cps(text)})
 
 
 def real_loc(body, pos):
@@ -799,6 +826,8 @@ def replay(ctx, data):
     r = real_lex(text)
     if kind == "bytes":
         return real_lex(text) == real_lex(text.encode("utf8"))
+    if kind == "lookahead":
+        return r[0] == "syntax"
     if kind == "loc":
         loc, hl = real_loc(text, int(inp.get("pos", 0)))
         return loc[0] == "ok" and hl[0] == "ok"
